@@ -116,6 +116,57 @@ Definition methods_of (header : string) : option (list string) :=
 Lemma tie_impl_count : length gen_impl_methods = 72%nat.
 Proof. reflexivity. Qed.
 
+(* ---- the bounds each trait impl places on its type parameters ---- *)
+Definition bounds_of (header : string) : option (list string) :=
+  match find (fun r => String.eqb (snd (fst r)) header) gen_impl_bounds with
+  | Some (_, _, bs) => Some bs
+  | None => None
+  end.
+
+(* the "structural" traits: the array has the trait exactly when the element type has it -- nothing weaker
+   (an impl that compiles for fewer element types sends method calls through Deref to the slice impl,
+   which relates any two lengths) and nothing stronger *)
+Definition structural_traits : list string :=
+  ["Default"; "Clone"; "PartialEq"; "Eq"; "PartialOrd"; "Ord"; "Debug"; "Hash"]%string.
+
+Lemma tie_structural_bounds :
+  Forall (fun tr => bounds_of (tr ++ " for GenericArray<T,N>") = Some ["N:ArrayLength"; ("T:" ++ tr)%string])
+         structural_traits.
+Proof. repeat constructor. Qed.
+
+(* the unsafe auto-trait impls and Copy carry the element bound; the by-value iterator has no impl of
+   Send / Sync / Copy of its own (the auto traits follow from its fields) and is Clone for T: Clone *)
+Definition mentions (needle header : string) : bool :=
+  let n := String.length needle in
+  existsb (fun i => String.eqb (substring i n header) needle) (seq 0 (String.length header)).
+
+Lemma tie_marker_bounds :
+  bounds_of "unsafe Send for GenericArray<T,N>" = Some ["N:ArrayLength"; "T:Send"] /\
+  bounds_of "unsafe Sync for GenericArray<T,N>" = Some ["N:ArrayLength"; "T:Sync"] /\
+  bounds_of "Copy for GenericArray<T,N>" = Some ["N::ArrayType<T>:Copy"; "N:ArrayLength"; "T:Copy"] /\
+  bounds_of "Copy for GenericArrayImplEven<T,U>" = Some ["T:Copy"; "U:Copy"] /\
+  bounds_of "Copy for GenericArrayImplOdd<T,U>" = Some ["T:Copy"; "U:Copy"] /\
+  bounds_of "Clone for GenericArrayIter<T,N>" = Some ["N:ArrayLength"; "T:Clone"] /\
+  filter (fun r => (mentions "Send for" (snd (fst r)) || mentions "Sync for" (snd (fst r)) || mentions "Copy for" (snd (fst r)))%bool)
+         gen_impl_bounds
+  = [("lib.rs", "Copy for GenericArrayImplEven<T,U>", ["T:Copy"; "U:Copy"]);
+     ("lib.rs", "Copy for GenericArrayImplOdd<T,U>", ["T:Copy"; "U:Copy"]);
+     ("lib.rs", "unsafe Send for GenericArray<T,N>", ["N:ArrayLength"; "T:Send"]);
+     ("lib.rs", "unsafe Sync for GenericArray<T,N>", ["N:ArrayLength"; "T:Sync"]);
+     ("impls.rs", "Copy for GenericArray<T,N>", ["N::ArrayType<T>:Copy"; "N:ArrayLength"; "T:Copy"])].
+Proof. repeat split. Qed.
+
+(* comparisons relate one length only: no impl header of a comparison trait names a second array type *)
+Lemma tie_cmp_headers :
+  map (fun r => snd (fst r))
+      (filter (fun r => (mentions "PartialEq" (snd (fst r)) || mentions "PartialOrd" (snd (fst r))
+                         || mentions "Ord for" (snd (fst r)) || mentions "Eq for" (snd (fst r)))%bool) gen_impl_bounds)
+  = ["PartialEq for GenericArray<T,N>"; "Eq for GenericArray<T,N>"; "PartialOrd for GenericArray<T,N>"; "Ord for GenericArray<T,N>"].
+Proof. reflexivity. Qed.
+
+Lemma tie_impl_bounds_count : length gen_impl_bounds = 72%nat.
+Proof. reflexivity. Qed.
+
 (* ---- impl_tuple!: both conversions are safe destructurings -- the tuple is taken apart into the
         bindings $t.. and rebuilt as the array literal [$t..] through from_array, the array is turned
         into a native array by into_array, taken apart into the same bindings and rebuilt as the tuple:
